@@ -378,6 +378,48 @@ def o4(W, ob):
              'varint layout differs: writer constants %s, reader constants %s' % (sorted(consts_w), sorted(consts_r)), where(r))
 
 
+SCALARS = {'u8', 'u16', 'u32', 'u64', 'u128', 'usize', 'i8', 'i16', 'i32', 'i64', 'i128', 'isize', 'bool', 'char'}
+
+
+def o5(W, ob):
+    """record-local state: the codec loops handle one record (one varint-prefixed token, one length-prefixed input) per iteration; the only
+    things that may survive from one record to the next are the buffers / iterators and a position in the input"""
+    import re
+    from . import liveness
+    from .facts import Operand
+    n = 0
+    for nm in ('rle_decode', 'delta_decode', 'delta_encode'):
+        f = W.fn(COMP + '::' + nm)
+        cx = W.ctx(f)
+        loops = W.guards(f).loop_by_header()
+        outer = [(h, body) for h, body in loops.items() if not any(h2 != h and h in b2 for h2, b2 in loops.items())]
+        ob.check(len(outer) >= 1, '%s|record-loop' % nm, '%s has a record loop' % nm, '%s has no loop: cannot establish the record-local-state rule' % nm, where(f))
+        # expressions used as positions into a sequence
+        pos_keys = []
+        for b in f.blocks:
+            if b.cleanup:
+                continue
+            t = b.term
+            if t.k == 'assert' and t.msg['kind'] == 'BoundsCheck':
+                pos_keys.append(key(cx.expr_operand(Operand(t.msg['index']))))
+            elif t.k == 'call' and t.callee.indirect is None and last_seg(t.callee.best) in ('index', 'index_mut', 'get', 'get_mut', 'split_at', 'nth') and len(t.args) >= 2:
+                pos_keys.append(key(cx.expr_operand(t.args[1])))
+        for h, body in outer:
+            for l in liveness.carried(f, h, body):
+                ty = f.local_ty(l) or ''
+                name = f.local_name(l) or ('_%d' % l)
+                if ty not in SCALARS:
+                    n += 1
+                    ob.ok('%s: `%s` (%s) is carried from record to record (buffer / iterator / reference input)' % (nm, name, ty[:50]), where(f, f.blocks[h].term.line))
+                    continue
+                is_pos = any(re.search(r'(?:^|[^A-Za-z0-9_])\w*#%d(?![0-9])' % l, k) for k in pos_keys)
+                n += 1
+                ob.check(is_pos, '%s|carried-scalar|%s' % (nm, name), '%s: the scalar `%s` carried from record to record is a position in the input' % (nm, name),
+                         '%s: the scalar `%s` (%s) keeps its value from one record to the next and is not a position in the input: the decoding of a record '
+                         'depends on the records before it (initialise it inside the record loop)' % (nm, name, ty), where(f, f.blocks[h].term.line))
+    ob.require_count(n, 7, 'values carried between records in the codec loops')
+
+
 from . import casts
 
 OBLIGATIONS = [
@@ -391,5 +433,6 @@ OBLIGATIONS = [
     ('C14.O4', 'run-length layer: reader table = writer table', 'the header layout bitfield_rle writes (read from the dependency\'s typed MIR: run = len << 2 | 1, '
      '| 2 for runs of 0xFF; literal = len << 1; varint groups of 7 bits) is the one rle_decode reads: same flag bits, same shifts, fill byte 0xFF/0x00 '
      'under the same bit, run appended to the current length.', o4, {'deps': True}),
+    ('C14.O5', 'record-local state', 'each codec loop (rle_decode, delta_decode, delta_encode) handles one record per iteration; loop-carried-state analysis (liveness at the loop header) shows that only buffers, iterators, the reference input and a position in the input survive from one record to the next: no scalar accumulator (varint shift, value, flag) leaks into the next record.', o5),
     ('C14.C', 'lossy integer casts', 'every sign-changing cast (signed -> unsigned; NULL_FRAME is -1) and every narrowing cast to < 32 bits or from 128 bits in the crate is in range by a dominating guard, by the shape of its operand, or listed with a reason in tables/casts.json; see rules/casts.py', casts.rule),
 ]
